@@ -323,7 +323,7 @@ func report(w *World, res *checkResult, tier string, seed int, cfg SolverCfg, t0
 		var bad *Obligation
 		for _, o := range famObls[fam] {
 			if o.Status != "discharged" {
-				if bad == nil || (o.Status == "refuted" && bad.Status != "refuted") {
+				if bad == nil || (o.Status == "refuted" && bad.Status != "refuted") || (o.Status == "refuted" && o.Exact && !bad.Exact) {
 					bad = o
 				}
 			}
@@ -346,9 +346,11 @@ func report(w *World, res *checkResult, tier string, seed int, cfg SolverCfg, t0
 			violations++
 			fmt.Printf("VIOLATION property=%s replay=%s%s\n", prop, rp.Path, suffix)
 			fmt.Printf("  obligation %s [%s] at %s: %s\n", bad.ID, bad.Status, bad.Pos, bad.Text)
-		} else if rp.Outcome == "reproduced" || bad.Status == "refuted" {
-			// an obligation family that is not in the baseline (new code path): a violation when the solver
-			// exhibits a counterexample (sat), undecided when it merely fails to prove it
+		} else if rp.Outcome == "reproduced" || (bad.Status == "refuted" && (bad.Exact || bad.Backend == "syntactic")) {
+			// an obligation family that is not in the baseline (new code path): a violation when the counterexample
+			// fails on the real code, or when the solver exhibits one (sat) on a path that went through no
+			// abstraction of the module's own code (no loop summary, no callee contract, no heap havoc) - the model
+			// is then an execution of the function; otherwise undecided (new code needs its own invariants)
 			violations++
 			fmt.Printf("VIOLATION property=%s replay=%s%s\n", prop, rp.Path, suffix)
 			fmt.Printf("  obligation %s [%s] at %s: %s\n", bad.ID, bad.Status, bad.Pos, bad.Text)
